@@ -30,7 +30,6 @@ use crate::common::*;
 use crate::cprlib::*;
 use rs1090::decode::bds::bds05::AirbornePosition;
 use rs1090::decode::cpr::{decode_position, decode_positions, AircraftState, Position, UpdateIf};
-use rs1090::decode::crc::modes_checksum;
 use rs1090::decode::{Message, TimedMessage, DF, ICAO};
 use rs1090::prelude::ME;
 use std::collections::BTreeMap;
@@ -117,7 +116,7 @@ fn frame(rng: &mut Rng, r: &Rep, d1090: bool) -> Vec<u8> {
     f[2] = (r.addr >> 8) as u8;
     f[3] = r.addr as u8;
     f[4..11].copy_from_slice(&me_bytes(rng, r, d1090));
-    let rem = modes_checksum(&f, 112).expect("checksum");
+    let rem = spec_parity24(&f[..11]);
     f[11] = (rem >> 16) as u8;
     f[12] = (rem >> 8) as u8;
     f[13] = rem as u8;
